@@ -1,6 +1,10 @@
 #!/bin/sh
-# builds the extracted traversal model + driver; run after theories/Model/Visit.vo is compiled
+# builds the extracted traversal model + driver; run after theories/Model/Visit.vo is compiled.
+# The binary is replaced atomically (several checks use it concurrently).
 set -e
 cd "$(dirname "$0")"
 coqc -Q ../../theories Argot Extract.v >/dev/null
-ocamlfind ocamlopt -w -a -O3 visit.mli visit.ml driver.ml -o ../../../build/bin/travmodel 2>/dev/null || ocamlfind ocamlopt -w -a visit.mli visit.ml driver.ml -o ../../../build/bin/travmodel
+out=../../../build/bin/travmodel
+tmp=$out.tmp.$$
+ocamlfind ocamlopt -w -a -O3 visit.mli visit.ml driver.ml -o $tmp 2>/dev/null || ocamlfind ocamlopt -w -a visit.mli visit.ml driver.ml -o $tmp
+mv -f $tmp $out
